@@ -32,6 +32,9 @@ SCRIPT = [
     ('update', edev.upd_announce(('192.0.2.0', 24))),
     ('api', b'peer * announce route 10.1.0.0/24 next-hop 2.2.2.2\n'),
     ('update', edev.upd_announce(('198.51.100.0', 24))),
+    # a well-behaved peer closes its initial table with an End-of-RIB marker per family (RFC 4724 2)
+    ('update', bytes(4)),
+    ('update', wire.encode_update(attrs=[wire.encode_attr(wire.MP_UNREACH, wire.encode_mp_unreach(2, 1, [], False))])),
 ]
 
 CONFIGS = {
@@ -360,7 +363,7 @@ def run(ctx: core.Ctx) -> None:
         plan = [(c, b) for c, b in plan if c in os.environ['C05_ONLY'].split(',')]
         ctx.cap(f'restricted to configurations {os.environ["C05_ONLY"]} by C05_ONLY')
     bound = max(b for _, b in plan)
-    ctx.rule = (f'every execution of the default session script (connect, OPEN/KEEPALIVE exchange, 2 UPDATEs in, 1 API announce, idle) '
+    ctx.rule = (f'every execution of the default session script (connect, OPEN/KEEPALIVE exchange, 2 UPDATEs and the two End-of-RIB markers in, 1 API announce, idle) '
                 f'over {STEPS} macro steps with <= k deviations from a state-dependent menu (connect refused, EOF, RST, EPIPE, unexpected message '
                 f'of each type, 3 header faults, 4 bad OPENs, hold-timer jump, inbound connection with lower/higher router-id, API teardown, '
                 f'reload same/changed/without the neighbor/with it again, shutdown); (configuration, k) plan = {plan}; non-trivial = at least one deviation and a distinct (final FSM, per-socket message count, closed) outcome')
